@@ -483,6 +483,74 @@ func (v *Verifier) CheckFrame(cs *ContractSet, fd *FrameDecl) (ok bool, offender
 	return len(offenders) == 0, offenders
 }
 
+// CheckOrdered: for every function of the package that calls one of the named functions, are all those calls outside
+// loops that range over a map? Result: "function:callee" -> positions of offending calls (empty = fine).
+func (v *Verifier) CheckOrdered(cs *ContractSet, od *OrderedDecl) map[string][]string {
+	out := map[string][]string{}
+	p := v.pkgByPath[cs.PkgPath]
+	if p == nil {
+		return out
+	}
+	sp := v.prog.Package(p.Types)
+	want := map[string]bool{}
+	for _, n := range od.Names {
+		want[n] = true
+	}
+	seen := map[*ssa.Function]bool{}
+	var visit func(fn *ssa.Function)
+	visit = func(fn *ssa.Function) {
+		if fn == nil || seen[fn] {
+			return
+		}
+		seen[fn] = true
+		for _, b := range fn.Blocks {
+			for _, in := range b.Instrs {
+				c, ok := in.(*ssa.Call)
+				if !ok {
+					continue
+				}
+				name := ""
+				if callee := c.Common().StaticCallee(); callee != nil {
+					name = callee.Name()
+				} else if c.Common().IsInvoke() {
+					name = c.Common().Method.Name()
+				}
+				if !want[name] {
+					continue
+				}
+				key := targetName(fn) + ":" + name
+				if _, ok := out[key]; !ok {
+					out[key] = nil
+				}
+				if inMapRangeLoop(fn, b) {
+					out[key] = append(out[key], v.pos(c.Pos()))
+				}
+			}
+		}
+		for _, a := range fn.AnonFuncs {
+			visit(a)
+		}
+	}
+	for _, m := range sp.Members {
+		switch mm := m.(type) {
+		case *ssa.Function:
+			visit(mm)
+		case *ssa.Type:
+			if named, ok := mm.Type().(*types.Named); ok {
+				for i := 0; i < named.NumMethods(); i++ {
+					visit(v.prog.FuncValue(named.Method(i)))
+				}
+				// methods with pointer receivers
+				ms := v.prog.MethodSets.MethodSet(types.NewPointer(named))
+				for i := 0; i < ms.Len(); i++ {
+					visit(v.prog.MethodValue(ms.At(i)))
+				}
+			}
+		}
+	}
+	return out
+}
+
 func (v *Verifier) isPureFuncType(t types.Type) bool {
 	n, ok := types.Unalias(t).(*types.Named)
 	if !ok || n.Obj().Pkg() == nil {
